@@ -707,6 +707,7 @@ def keep_or_replace(prog, rule):
     evidence.  Returns the number of idiom instances judged."""
     n = 0
     for fn in prog.all_functions():
+        candidates = []
         for (b, i, r, d) in fn.eval_sites():
             v, init = None, None
             if d.get("k") == "decl":
@@ -715,8 +716,31 @@ def keep_or_replace(prog, rule):
                         v, init = var["name"], strip(var["init"])
             elif d.get("k") == "asg" and d.get("op") == "=" and isinstance(strip(d.get("rhs")), dict) and strip(d.get("rhs")).get("k") == "cond":
                 v, init = path(strip(d.get("lhs"))), strip(d.get("rhs"))
-            if not v or init is None:
+            if v and init is not None:
+                candidates.append((v, init))
+        # the same choice written as if / else: two assignments of one local on opposite outcomes of one branch
+        from . import loops as _loops
+        by_var = {}
+        for (b, i, r, d) in fn.eval_sites("asg"):
+            lp = path(strip(d.get("lhs")))
+            if d.get("op") == "=" and lp and re.match(r"^\w+$", lp):
+                by_var.setdefault(lp, []).append((b, d))
+        for lp, defs in by_var.items():
+            if len(defs) != 2:
                 continue
+            (b1, d1), (b2, d2) = defs
+            for tb in fn.blocks.values():
+                if len(tb.succs) != 2:
+                    continue
+                t, f = _loops.control_dependents(fn, tb.id)
+                cnd = cfgq.cond_of(fn, tb)
+                if cnd is None:
+                    continue
+                if b1.id in t and b2.id in f:
+                    candidates.append((lp, {"k": "cond", "c": cnd, "then": d1.get("rhs"), "else": d2.get("rhs")}))
+                elif b1.id in f and b2.id in t:
+                    candidates.append((lp, {"k": "cond", "c": cnd, "then": d2.get("rhs"), "else": d1.get("rhs")}))
+        for (v, init) in candidates:
             arms = [strip(init.get("then")), strip(init.get("else"))]
             keep = [x for x in arms if isinstance(x, dict) and x.get("k") == "member"]
             fresh = [x for x in arms if isinstance(x, dict) and x.get("k") == "call" and x.get("callee") in DUPS]
